@@ -341,76 +341,140 @@ func genC22Case(r *rand.Rand, index int, largeEvery int, quick bool) *c22Case {
 	return c
 }
 
-// runC22Case executes one case and returns "" or a violation (rule, text).
-func runC22Case(r *vk.Run, c *c22Case) {
-	mu := &sync.Mutex{}
-	wire := newFragPipe(c.Seed, c.Style, mu)
-	w := newFramedWriter(c.Alg, wire)
-	dec := newFramedDecoder(c.Alg, wire)
+// c22Session is one long-lived control stream (writer stack, wire, reader
+// stack, decoder goroutine), as an endpoint connection is: cases are run
+// through it one after the other, so compressor and buffer state carries over
+// from case to case. (Building a DEFLATE stack costs ~0.2 s under -race,
+// which is the other reason not to build one per case.)
+type c22Session struct {
+	alg  compression.Algorithm
+	mu   *sync.Mutex
+	wire *fragPipe
+	w    *framedWriter
+	dec  *encoding.ProtobufDecoder
 
-	// decoder state, protected by mu
-	var decoded []proto.Message
-	var decErr error
-	var dead bool
-	var extraMessage bool
-	var extraErr error
-	done := make(chan struct{})
+	// protected by mu
+	expect       []proto.Message // messages the decoder is to expect next (prototypes)
+	next         int             // index into expect of the message being decoded
+	decoded      []proto.Message
+	decErr       error
+	dead         bool
+	closing      bool
+	extraMessage bool
+	extraErr     error
 
-	go func() {
-		defer close(done)
-		for i := range c.msgs {
-			m := c.msgs[i].ProtoReflect().New().Interface()
-			err := dec.Decode(m)
-			mu.Lock()
-			if err != nil {
-				decErr, dead = err, true
-				wire.cond.Broadcast()
-				mu.Unlock()
-				return
-			}
-			decoded = append(decoded, m)
-			wire.cond.Broadcast()
-			mu.Unlock()
+	history []int // case indices run through this session
+	done    chan struct{}
+}
+
+func newC22Session(alg compression.Algorithm, seed int64) *c22Session {
+	s := &c22Session{alg: alg, mu: &sync.Mutex{}, done: make(chan struct{})}
+	s.wire = newFragPipe(seed, 0, s.mu)
+	s.w = newFramedWriter(alg, s.wire)
+	s.dec = newFramedDecoder(alg, s.wire)
+	go s.decodeLoop()
+	return s
+}
+
+func (s *c22Session) decodeLoop() {
+	defer close(s.done)
+	for {
+		s.mu.Lock()
+		for s.next >= len(s.expect) && !s.closing {
+			s.wire.cond.Wait() // idle: nothing announced, so nothing is outstanding
 		}
-		// Nothing more was written: a further decode may only end with the
-		// end of the stream.
-		extra := &rsync.Transmission{}
-		err := dec.Decode(extra)
-		mu.Lock()
-		extraErr = err
-		extraMessage = err == nil
-		wire.cond.Broadcast()
-		mu.Unlock()
-	}()
+		if s.next >= len(s.expect) {
+			s.mu.Unlock()
+			break
+		}
+		m := s.expect[s.next].ProtoReflect().New().Interface()
+		s.mu.Unlock()
+		err := s.dec.Decode(m)
+		s.mu.Lock()
+		if err != nil {
+			s.decErr, s.dead = err, true
+			s.wire.cond.Broadcast()
+			s.mu.Unlock()
+			return
+		}
+		s.decoded = append(s.decoded, m)
+		s.next++
+		s.wire.cond.Broadcast()
+		s.mu.Unlock()
+	}
+	// The stream has been shut down: a further decode may only report its end.
+	extra := &rsync.Transmission{}
+	err := s.dec.Decode(extra)
+	s.mu.Lock()
+	s.extraErr = err
+	s.extraMessage = err == nil
+	s.mu.Unlock()
+}
+
+// finish shuts the stream down the way the endpoints do and checks that the
+// decoder sees the end of the stream and nothing else.
+func (s *c22Session) finish(r *vk.Run, healthy bool) {
+	s.mu.Lock()
+	s.closing = true
+	s.wire.cond.Broadcast()
+	s.mu.Unlock()
+	s.w.close(s.wire)
+	<-s.done
+	s.mu.Lock()
+	defer s.mu.Unlock()
+	r.Count("wire_bytes", s.wire.delivered)
+	r.Count("wire_reads", s.wire.reads)
+	r.Count("reader_starve_events", s.wire.starves)
+	r.Count("streams", 1)
+	if !healthy {
+		return
+	}
+	if s.extraMessage || s.extraErr == nil {
+		r.Violation(map[string]string{"rule": "phantom-message", "algorithm": s.alg.String()}, "a message was decoded after the last written message when the stream was shut down",
+			map[string]any{"algorithm": s.alg.String(), "cases_on_this_stream": s.history})
+	} else {
+		r.Count("streams_ended_cleanly", 1)
+	}
+}
+
+// runC22Case runs one case through the session. It returns false if the
+// session can no longer be used (a violation was found).
+func runC22Case(r *vk.Run, s *c22Session, c *c22Case) bool {
+	s.history = append(s.history, c.Index)
+	s.mu.Lock()
+	s.wire.style = c.Style
+	s.wire.rng = rand.New(rand.NewSource(c.Seed))
+	s.expect, s.next, s.decoded = nil, 0, nil
+	s.mu.Unlock()
+	w, wire, mu := s.w, s.wire, s.mu
 
 	fail := func(rule, what string, extra map[string]any) {
 		wit := c.describe()
+		wit["earlier_cases_on_this_stream"] = append([]int(nil), s.history[:len(s.history)-1]...)
 		for k, v := range extra {
 			wit[k] = v
 		}
 		r.Violation(map[string]string{"rule": rule, "algorithm": c.Alg.String()}, what, wit)
 	}
 
-	aborted := false
 	written := 0
 	sinceFlush := 0
 	for i, m := range c.msgs {
+		mu.Lock()
+		s.expect = append(s.expect, m)
+		wire.cond.Broadcast()
+		mu.Unlock()
 		if err := w.encoder.Encode(m); err != nil {
 			fail("encode-error", fmt.Sprintf("encoder rejected message %d: %v", i, err), nil)
-			aborted = true
-			break
+			return false
 		}
 		written++
 		sinceFlush++
 		for k := 0; k < c.flush[i]; k++ {
 			if err := w.flusher.Flush(); err != nil {
 				fail("flush-error", fmt.Sprintf("flush after message %d failed: %v", i, err), nil)
-				aborted = true
-				break
+				return false
 			}
-		}
-		if aborted {
-			break
 		}
 		if c.flush[i] == 0 {
 			continue
@@ -419,59 +483,44 @@ func runC22Case(r *vk.Run, c *c22Case) {
 		// Wait (event-driven, no timeout) until the decoder has delivered all
 		// of them or is blocked on an empty wire.
 		mu.Lock()
-		for len(decoded) < written && !dead && !wire.starvedLocked() {
+		for len(s.decoded) < written && !s.dead && !wire.starvedLocked() {
 			wire.cond.Wait()
 		}
-		nd, isDead, err := len(decoded), dead, decErr
+		nd, isDead, err := len(s.decoded), s.dead, s.decErr
 		deliveredBytes := wire.delivered
 		mu.Unlock()
 		r.Count("flush_points_checked", 1)
 		if isDead {
 			fail("decode-error", fmt.Sprintf("decoder failed at message %d of %d written: %v", nd, written, err), map[string]any{"decoded": nd, "written": written})
-			aborted = true
-			break
+			return false
 		}
 		if nd < written {
 			fail("starved-with-messages-outstanding",
-				fmt.Sprintf("after flushing message %d the reader consumed all %d wire bytes and blocked on the empty pipe with only %d of %d messages decoded", i, deliveredBytes, nd, written),
+				fmt.Sprintf("after flushing message %d the reader consumed all wire bytes (%d on this stream) and blocked on the empty pipe with only %d of %d messages decoded", i, deliveredBytes, nd, written),
 				map[string]any{"decoded": nd, "written": written, "flush_after_message": i})
-			aborted = true
-			break
+			return false
 		}
 		r.Distinct(fmt.Sprintf("%s|s%d|%s|%s|n%d|f%d", c.Alg, c.Style, m.ProtoReflect().Descriptor().Name(), sizeClass(proto.Size(m)), bucket(sinceFlush), c.flush[i]))
 		sinceFlush = 0
 	}
 
-	// Shut the stream down the way the endpoints do and let the decoder end.
-	w.close(wire)
-	<-done
-
+	// The last message is always followed by a flush, so everything is decoded.
 	mu.Lock()
-	defer mu.Unlock()
-	r.Count("wire_bytes", wire.delivered)
-	r.Count("wire_reads", wire.reads)
-	r.Count("reader_starve_events", wire.starves)
-	if aborted {
-		return
-	}
+	decoded := s.decoded
+	mu.Unlock()
 	r.Count("messages_decoded", int64(len(decoded)))
 	if len(decoded) != len(c.msgs) {
-		fail("decode-error", fmt.Sprintf("decoded %d of %d messages: %v", len(decoded), len(c.msgs), decErr), nil)
-		return
+		fail("decode-error", fmt.Sprintf("decoded %d of %d messages", len(decoded), len(c.msgs)), nil)
+		return false
 	}
 	for i := range c.msgs {
 		if !proto.Equal(c.msgs[i], decoded[i]) {
 			fail("message-altered", fmt.Sprintf("message %d (%s, %d bytes) was decoded as a different message", i, c.msgs[i].ProtoReflect().Descriptor().Name(), proto.Size(c.msgs[i])), map[string]any{"index": i})
-			return
+			return false
 		}
-		sz := proto.Size(c.msgs[i])
-		r.Count("messages_"+sizeClass(sz), 1)
+		r.Count("messages_"+sizeClass(proto.Size(c.msgs[i])), 1)
 	}
-	if extraMessage {
-		fail("phantom-message", "a message was decoded after the last written message", nil)
-	} else if extraErr == nil {
-		fail("phantom-message", "decoder state inconsistent after close", nil)
-	}
+	return true
 }
 
 func bucket(n int) int {
@@ -564,7 +613,11 @@ func c22Oversize(r *vk.Run) {
 			if broken {
 				break // do not feed even larger sizes to a decoder that does not reject
 			}
-			for style := 0; style < 2; style++ {
+			nStyles := 2
+			if alg == compression.Algorithm_AlgorithmDeflate {
+				nStyles = 1 // building a DEFLATE stack is slow under -race
+			}
+			for style := 0; style < nStyles; style++ {
 				fmt.Printf("C22 oversize case: alg=%s prefix=%d style=%d\n", alg, v, style)
 				var o prefixOutcome
 				r.Guard(map[string]any{"alg": alg.String(), "prefix": v}, func() {
@@ -652,45 +705,50 @@ func c22() {
 	}
 	total := n + 6
 
-	workers := runtime.NumCPU()
-	if workers > 16 {
-		workers = 16
-	}
-	ch := make(chan int)
+	// Static partition: worker w runs the cases i = w (mod workers) in order,
+	// each algorithm through its own long-lived stream, so a run is a pure
+	// function of tier and seed. A stream is retired (shut down, end-of-stream
+	// checked) after streamLife cases.
+	const workers = 16
+	streamLife := r.Pick(6, 20)
+	only := os.Getenv("VERIF_CASE") // development aid: run a single case index
 	var wg sync.WaitGroup
 	for w := 0; w < workers; w++ {
 		wg.Add(1)
-		go func() {
+		go func(w int) {
 			defer wg.Done()
-			for index := range ch {
+			sessions := map[compression.Algorithm]*c22Session{}
+			for index := w; index < total; index += workers {
+				if only != "" && only != fmt.Sprint(index) {
+					continue
+				}
 				c := build(index)
 				if index < 3 {
 					r.Sample(c.describe())
 				}
+				fmt.Printf("C22 case %d alg=%s style=%d msgs=%d\n", c.Index, c.Alg, c.Style, len(c.msgs))
+				s := sessions[c.Alg]
+				if s == nil {
+					s = newC22Session(c.Alg, seeds[index%n]^int64(w))
+					sessions[c.Alg] = s
+				}
 				t0 := time.Now()
-				r.Guard(c.describe(), func() { runC22Case(r, c) })
+				ok := false
+				r.Guard(c.describe(), func() { ok = runC22Case(r, s, c) })
 				r.Eval(1)
 				if os.Getenv("VERIF_DEBUG") != "" {
-					tot := 0
-					for _, m := range c.msgs {
-						tot += proto.Size(m)
-					}
-					fmt.Printf("casetime %d %.3f alg=%s style=%d msgs=%d bytes=%d\n", c.Index, time.Since(t0).Seconds(), c.Alg, c.Style, len(c.msgs), tot)
+					fmt.Printf("casetime %d %.3f alg=%s style=%d msgs=%d\n", c.Index, time.Since(t0).Seconds(), c.Alg, c.Style, len(c.msgs))
 				}
-				if d := time.Since(t0); d > 2*time.Second && os.Getenv("VERIF_DEBUG") != "" {
-					fmt.Printf("slow case %d: %.1fs alg=%s style=%d msgs=%d\n", c.Index, d.Seconds(), c.Alg, c.Style, len(c.msgs))
+				if !ok || len(s.history) >= streamLife {
+					s.finish(r, ok)
+					delete(sessions, c.Alg)
 				}
 			}
-		}()
+			for _, s := range sessions {
+				s.finish(r, true)
+			}
+		}(w)
 	}
-	only := os.Getenv("VERIF_CASE") // development/replay aid: run a single case index
-	for i := 0; i < total; i++ {
-		if only != "" && only != fmt.Sprint(i) {
-			continue
-		}
-		ch <- i
-	}
-	close(ch)
 	wg.Wait()
 
 	stopProfile()
